@@ -20,6 +20,12 @@ def feature(rng, t):
     kind = rng.choice(["end_interior", "end_interior", "end_end", "end_boundary"])
     g = rng.choice([0.0, 0.3, 0.9, 1.0, 1.05, 1.1, 1.3, 1.65, 2.0, 3.0, 6.0, 12.0, rng.uniform(0, 12)]) * t
     sign = rng.choice([1, 1, -1])  # undershoot / overshoot
+    if kind == "end_interior" and rng.random() < 0.25:
+        # the target starts with a short hook folding back over its long second segment: the vertex of the target nearest to the
+        # arriving end (the hook's tip) is NOT an end of the segment the end abuts
+        target = [(-4.5, 0.25), (-6.0, 0.0), (4.0, 0.0)]
+        x = -4.2 + rng.choice([0.0, 0.1, 0.6])
+        return [target, [(x + rng.choice([0.0, 2.0]), 5.0), (x, sign * g)]], kind, g / t * sign
     if kind == "end_interior":
         # distance of the contact from the tip of the target: incl. stubs barely longer than the branch minimum
         s = rng.choice([1.2, 1.5, 1.9, 2.5, 3.0, 30.0, 400.0]) * t
@@ -132,7 +138,7 @@ def mutual_abutment(m) -> bool:
 def s03_accepted(ctx):
     res = StreamResult("S03-accepted", rule="maps of 1..3 isolated near-threshold features (end near a trace interior incl. close to the target's tip, end near an end, end "
                        "near the area boundary; gaps 0..12 x snap, under- and overshoot, 8 orientations incl. axis-parallel, offsets to UTM scale, thresholds 1e-3..1e-1), "
-                       "filtered through the real Validation; every ACCEPTED map must extract without raising, with no Error branch and I/Y/X nodes terminating 1/3/4 "
+                       "also onto a target whose nearest vertex (the tip of a hook) is not an end of the abutted segment; filtered through the real Validation; every ACCEPTED map must extract without raising, with no Error branch and I/Y/X nodes terminating 1/3/4 "
                        "branches; non-trivial = accepted map with a feature gap below 2 x snap")
     rng = rng_for(ctx.seed, "S03")
     maps = [build_map(rng) for _ in range(budget(ctx.tier, 600, 15000))]
